@@ -23,7 +23,7 @@ from ..engine.util import (
     nodes_with_call, normal_edge, some, u, writes_of,
 )
 from ._c10_util import (
-    Flow, callee_tail, is_none, join, less_than, loop_leaks, nonempty, own_calls, positive, registered,
+    Flow, callee_tail, count_loop, is_none, join, less_than, loop_leaks, nonempty, own_calls, positive, registered,
     strip_wrappers, truthy,
 )
 
@@ -48,7 +48,30 @@ def check_run_loop(run: Run, prog: Program) -> None:
     fn, cfg, q = fl.fn, fl.cfg, fl.qual
     run.analysed(q)
     is_run = lambda c: method_call(c, "self", "_run")  # noqa: E731
-    run_nodes = some(nodes_with_call(cfg, is_run), "call of self._run() in Actor._run_loop")
+    run_nodes = nodes_with_call(cfg, is_run)
+    if not run_nodes:
+        # a piece of the loop that drives _run() but is not awaited in place could not be read in line
+        actor_c = prog.cls(ACTOR)
+
+        def drives_run(name: str, depth: int = 3) -> bool:
+            m = prog.resolve_method(actor_c, name)
+            if m is None or depth == 0:
+                return False
+            return any(is_run(c) or (isinstance(c.func, ast.Attribute) and u(c.func.value) == "self"
+                                     and c.func.attr != name and drives_run(c.func.attr, depth - 1))
+                       for c in ast.walk(m.node) if isinstance(c, ast.Call))
+
+        spawned = [(i, c) for i, c in fl.calls(
+            lambda c: isinstance(c.func, ast.Attribute) and u(c.func.value) == "self")
+            if not fl.awaited(i, c) and drives_run(c.func.attr)]  # type: ignore[attr-defined]
+        for i, c in spawned:
+            run.violation("C10.SINGLE", q, c,
+                          "the part of the run loop that invokes _run() is not awaited in place "
+                          "(spawned or handed over): runs could overlap and its outcome is not "
+                          "supervised", node=c, file=fn.file)
+        if spawned:
+            return
+    run_nodes = some(run_nodes, "call of self._run() in Actor._run_loop")
     for r in run_nodes:
         n = cfg.nodes[r]
         awaited = any(
@@ -198,10 +221,15 @@ def check_run_loop(run: Run, prog: Program) -> None:
                           path=fl.fmt(wit), instance=f"{q}: {text} => exception propagates")
         # (d) counter incremented exactly once (by 1) on every restart path, after the decision
         handler_side = cfg.reachable(e_targets, avoid=run_nodes)
+        # (`for ctr in itertools.count()`: the loop header is both the initialisation and the +1)
         incs = [x for x in sorted(handler_side | region)
-                if isinstance(cfg.nodes[x].ast, (ast.AugAssign, ast.Assign, ast.AnnAssign))
+                if (isinstance(cfg.nodes[x].ast, (ast.AugAssign, ast.Assign, ast.AnnAssign))
+                    or cfg.nodes[x].kind == "for")
                 and any(u(w) == ctr for w in node_writes(cfg, x))]
-        by_one = all(_is_plus_one(cfg.nodes[x].ast, ctr) for x in incs)
+        by_one = all(_is_plus_one(cfg.nodes[x].ast, ctr) or (
+            cfg.nodes[x].kind == "for" and (count_loop(cfg.nodes[x].ast) or (0, 0))[1] == 1
+            and u(cfg.nodes[x].ast.target) == ctr)  # type: ignore[union-attr]
+            for x in incs)
         wit = None
         for t0 in e_targets:
             wit = cfg.path(t0, run_nodes, avoid=incs)
@@ -230,21 +258,25 @@ def check_run_loop(run: Run, prog: Program) -> None:
                   f"the restart decision reads `{ctr}` after it was incremented for this failure "
                   "(one restart fewer than the limit)", node=gast, file=fn.file,
                   path=fl.fmt(stale), instance=f"{q}: limit test reads {ctr} before the increment")
-        # (e) the delay lies between the increment and the next _run(), and depends on the counter
-        delay_nodes = [i for i, c, _ in helper_delays if fl.awaited(i, c)] \
-            + [i for i, c in inline_sleeps if fl.awaited(i, c)]
-        all_awaited = len(delay_nodes) == len(helper_delays) + len(inline_sleeps)
+        # (e) the delay lies between the increment and the next _run(), and depends on the counter.
+        # Delay sites: awaited sleeps in the loop, awaited sleeping helpers without parameter (the
+        # caller decides) and awaited sleeping helpers that are given the counter (they decide).
+        plain = [(i, c) for i, c, m in helper_delays if not m.params[1:]]
+        given = [(i, c, m) for i, c, m in helper_delays if m.params[1:]]
+        sites = inline_sleeps + plain
+        delay_nodes = [i for i, c in sites if fl.awaited(i, c)] + [i for i, c, _ in given if fl.awaited(i, c)]
+        all_awaited = len(delay_nodes) == len(sites) + len(given)
         # Two phases along a restart path: before the increment the counter may still be 0 (tests on
         # it are followed both ways and a helper given the counter may not sleep); after it ctr > 0.
         restarting = fl.consistent(positive(ctr, True), normal=True)
-        helper_nodes = {i for i, c, _ in helper_delays}
-        sleep_here = {i for i, c in inline_sleeps}
+        given_nodes = {i for i, c, _ in given}
+        site_nodes = {i for i, c in sites}
         wit = None
         for t0 in e_targets:
             wit = wit or _two_phase_path(cfg, t0, set(run_nodes), set(incs), normal_edge, restarting,
-                                         avoid0=sleep_here, avoid1=sleep_here | helper_nodes)
+                                         avoid0=site_nodes, avoid1=site_nodes | given_nodes)
         ok_arg = True
-        for i, c, m in helper_delays:
+        for i, c, m in given:
             hp = m.params[1:]
             args = positional(c, hp)
             if len(hp) != 1 or set(args) != {hp[0]} or fl.text(i, args[hp[0]]) != ctr:
@@ -255,21 +287,28 @@ def check_run_loop(run: Run, prog: Program) -> None:
                   node=gast, file=fn.file, path=fl.fmt(wit),
                   instance=f"{q}: every restart passes the restart delay ({ctr}) before _run()")
         # the delay really sleeps RESTART_DELAY when the counter is > 0, and only then
-        for m in {id(m): m for _, _, m in helper_delays}.values():
-            _check_delay_guard(run, _flow(run, prog, m), m.params[1], entry_only=False)
-        if inline_sleeps:
-            _check_delay_guard(run, fl, ctr, entry_only=True, stop=run_nodes)
+        for m in {id(m): m for _, _, m in given}.values():
+            _check_delay_guard(run, _flow(run, prog, m), m.params[1], "helper")
+        for m in {id(m): m for _, _, m in helper_delays if not m.params[1:]}.values():
+            _check_delay_guard(run, _flow(run, prog, m), None, "always")
+        if sites:
+            _check_delay_guard(run, fl, ctr, "caller", stop=run_nodes, sites=sites)
         # initial value of the counter is 0 on every way into the first _run()
         first_part = cfg.reachable([cfg.entry], avoid=run_nodes, edge_ok=normal_edge)
         init = [x for x in sorted(first_part)
-                if isinstance(cfg.nodes[x].ast, (ast.Assign, ast.AnnAssign, ast.AugAssign))
+                if (isinstance(cfg.nodes[x].ast, (ast.Assign, ast.AnnAssign, ast.AugAssign))
+                    or cfg.nodes[x].kind == "for")
                 and any(u(w) == ctr for w in node_writes(cfg, x))]
-        ok_init = bool(init) and all(
-            isinstance(getattr(cfg.nodes[x].ast, "value", None), ast.Constant)
-            and not isinstance(cfg.nodes[x].ast, ast.AugAssign)
-            and cfg.nodes[x].ast.value.value == 0  # type: ignore[union-attr]
-            and type(cfg.nodes[x].ast.value.value) is int  # type: ignore[union-attr]
-            for x in init)
+
+        def zero_init(x: int) -> bool:
+            a = cfg.nodes[x].ast
+            if cfg.nodes[x].kind == "for":
+                return (count_loop(a) or (1, 0))[0] == 0 and u(a.target) == ctr  # type: ignore[union-attr]
+            v = getattr(a, "value", None)
+            return (isinstance(v, ast.Constant) and not isinstance(a, ast.AugAssign)
+                    and type(v.value) is int and v.value == 0)
+
+        ok_init = bool(init) and all(zero_init(x) for x in init)
         wit = cfg.path(cfg.entry, run_nodes, avoid=init, edge_ok=normal_edge) if init else None
         run.check(ok_init and wit is None, "C10.RESTART", q, f"{ctr} initialisation",
                   f"`{ctr}` is not (re)set to 0 when the run loop starts — the restart budget and "
@@ -316,49 +355,62 @@ def _two_phase_path(cfg, src: int, dsts: set[int], switch: set[int], ok0, ok1,  
     return None
 
 
-def _check_delay_guard(run: Run, dfl: Flow, param: str, entry_only: bool,
-                       stop: list[int] | None = None) -> None:
-    """The awaited asyncio.sleep of `dfl` happens iff `param` > 0 and lasts RESTART_DELAY.
+def _check_delay_guard(run: Run, dfl: Flow, param: str | None, mode: str,
+                       stop: list[int] | None = None,
+                       sites: list[tuple[int, ast.Call]] | None = None) -> None:
+    """The restart delay happens iff the counter is > 0 and lasts RESTART_DELAY.
 
-    Helper form (`entry_only=False`): under param > 0 every normal path entry -> exit sleeps, under
-    param == 0 none does.  Inline form (`entry_only=True`, inside the run loop): the way from the
-    entry to the first `_run()` (`stop`) never sleeps while the counter is 0; that every restart
-    path sleeps is rule (e) of the caller."""
+    mode "helper": a coroutine given the counter as `param`: under param > 0 every normal path
+        entry -> exit sleeps, under param == 0 none does.
+    mode "always": a coroutine without parameter: every normal path sleeps (its caller decides).
+    mode "caller": inside the run loop: the way from the entry to the first `_run()` (`stop`) never
+        reaches a delay site (`sites`: sleeps and parameterless delay helpers) while the counter
+        `param` is 0; that every restart path passes one is rule (e) of the caller."""
     dcfg = dfl.cfg
     is_sleep = lambda c: dotted(c.func) == "asyncio.sleep"  # noqa: E731
-    sleeps = [(i, c) for i, c in dfl.calls(is_sleep) if dfl.awaited(i, c)]
-    sleep_nodes = [i for i, _ in sleeps]
+    if sites is None:
+        sites = [(i, c) for i, c in dfl.calls(is_sleep) if dfl.awaited(i, c)]
+    site_nodes = [i for i, _ in sites]
     ok = False
     wit = None
     detail = "no awaited asyncio.sleep found"
-    if sleeps:
-        wit = None
+    if sites:
         rebound: list[int] = []
-        if not entry_only:
+        early = None
+        if mode == "helper":
+            assert param is not None
             rebound = [x.id for x in dcfg.nodes if any(u(w) == param for w in node_writes(dcfg, x.id))]
-            wit = dcfg.path(dcfg.entry, [dcfg.exit], avoid=sleep_nodes,
+            wit = dcfg.path(dcfg.entry, [dcfg.exit], avoid=site_nodes,
                             edge_ok=dfl.consistent(positive(param, True), normal=True))
-        early = dcfg.path(dcfg.entry, sleep_nodes, avoid=stop or [],
-                          edge_ok=dfl.consistent(positive(param, False), normal=True))
+        elif mode == "always":
+            wit = dcfg.path(dcfg.entry, [dcfg.exit], avoid=site_nodes, edge_ok=normal_edge)
+        if mode in ("helper", "caller"):
+            assert param is not None
+            early = dcfg.path(dcfg.entry, site_nodes, avoid=stop or [],
+                              edge_ok=dfl.consistent(positive(param, False), normal=True))
         ok = wit is None and early is None and not rebound
         if wit is not None:
-            detail = f"a restart ({param} > 0) can skip the delay"
+            detail = "a restart can skip the delay" if param is None else \
+                f"a restart ({param} > 0) can skip the delay"
         elif early is not None:
             wit = early
             detail = f"the first run ({param} == 0) is delayed: the delay guard is not `{param} > 0`"
         elif rebound:
             detail = f"`{param}` is re-bound inside {dfl.fn.name}"
         # the sleep duration derives from RESTART_DELAY
-        for i, c in sleeps:
+        for i, c in sites:
+            if not is_sleep(c):
+                continue  # a delay helper: its own sleep is checked in its own body
             arg = positional(c, ["delay", "result"]).get("delay")
             src = dfl.expand(i, arg) if arg is not None else None
             if src is None or not any(isinstance(x, ast.Attribute) and x.attr == "RESTART_DELAY"
                                       for x in ast.walk(src)):
                 ok = False
                 detail = "sleep duration does not derive from RESTART_DELAY"
+    what = "always" if param is None else f"iff {param} > 0"
     run.check(ok, "C10.RESTART", dfl.qual, "restart delay guard", detail, node=dfl.fn.node,
               file=dfl.file, path=dfl.fmt(wit),
-              instance=f"{dfl.qual}: sleeps RESTART_DELAY iff {param} > 0")
+              instance=f"{dfl.qual}: sleeps RESTART_DELAY {what}")
 
 
 def _is_plus_one(stmt: ast.AST | None, name: str) -> bool:
@@ -448,35 +500,77 @@ def check_single(run: Run, prog: Program) -> None:
     """who-may-call: _run only awaited from _run_loop; _run_loop only spawned from start()."""
     actor = prog.cls(ACTOR)
     actor_family = {c.qual for c in [actor] + prog.subclasses(actor)}
+    family = [fn for fn in prog.all_functions() if fn.cls is not None and fn.cls.qual in actor_family]
+    # The supervised unit: _run_loop plus the private Actor methods that are called (as
+    # `self._x(...)`) from inside the unit only -- pieces of the run loop that were split off.
+    sites: dict[str, list[tuple[object, ast.Call, bool]]] = {}
+    for fn in family:
+        awaited_calls = {id(x.value) for x in ast.walk(fn.node) if isinstance(x, ast.Await)}
+        for call in (x for x in ast.walk(fn.node) if isinstance(x, ast.Call)):
+            f = call.func
+            if isinstance(f, ast.Attribute) and u(f.value) == "self" and f.attr.startswith("_") \
+                    and not f.attr.startswith("__"):
+                sites.setdefault(f.attr, []).append((fn, call, id(call) in awaited_calls))
+    unit = {f"{ACTOR}._run_loop"}
+    unit_names = {"_run_loop"}
+    changed = True
+    while changed:
+        changed = False
+        for name, where in sites.items():
+            m = prog.resolve_method(actor, name)
+            if name == "_run" or m is None or m.qual in unit or m.cls is None or m.cls.qual != ACTOR:
+                continue
+            if all(fn.qual in unit for fn, _, _ in where) and any(fn.qual in unit for fn, _, _ in where):
+                unit.add(m.qual)
+                unit_names.add(name)
+                changed = True
+    # likewise start() and the private pieces split off from it (called from start() only)
+    start_unit = {f"{ACTOR}.start"}
+    changed = True
+    while changed:
+        changed = False
+        for name, where in sites.items():
+            m = prog.resolve_method(actor, name)
+            if m is None or m.qual in start_unit or m.qual in unit or m.cls is None or m.cls.qual != ACTOR:
+                continue
+            if all(fn.qual in start_unit for fn, _, _ in where):
+                start_unit.add(m.qual)
+                changed = True
     n_run = 0
-    for fn in prog.all_functions():
-        owner = fn.cls
-        if owner is None or owner.qual not in actor_family:
-            continue
+    for fn in family:
         called = set()
         for call in (x for x in ast.walk(fn.node) if isinstance(x, ast.Call)):
             called.add(id(call.func))
             if method_call(call, "self", "_run"):
                 n_run += 1
-                run.check(fn.qual == f"{ACTOR}._run_loop", "C10.SINGLE", fn.qual, call,
+                run.check(fn.qual in unit, "C10.SINGLE", fn.qual, call,
                           "Actor._run() invoked outside Actor._run_loop (a second, unsupervised "
                           "run of the actor's logic)", node=call, file=fn.file)
             if method_call(call, "self", "_run_loop"):
-                run.check(fn.qual == f"{ACTOR}.start", "C10.SINGLE", fn.qual, call,
+                run.check(fn.qual in start_unit, "C10.SINGLE", fn.qual, call,
                           "_run_loop spawned outside Actor.start", node=call, file=fn.file)
         # the bound method handed to somebody else (run_forever(self._run), a local alias, ...)
         for ref in ast.walk(fn.node):
-            if isinstance(ref, ast.Attribute) and ref.attr in ("_run", "_run_loop") \
+            if isinstance(ref, ast.Attribute) and ref.attr in unit_names | {"_run"} \
                     and u(ref.value) == "self" and id(ref) not in called:
                 n_run += 1
                 run.violation("C10.SINGLE", fn.qual, ref,
                               f"Actor.{ref.attr} handed to another runner: it may run concurrently "
                               "with the supervised run", node=ref, file=fn.file)
+    # the split-off pieces of the loop run in place: awaited where they are called, never spawned
+    for name in sorted(unit_names - {"_run_loop"}):
+        m = prog.resolve_method(actor, name)
+        for fn, call, is_awaited in sites.get(name, []):
+            if m is not None and m.is_async and not is_awaited:
+                run.violation("C10.SINGLE", fn.qual, call,  # type: ignore[attr-defined]
+                              f"Actor.{name} (part of the supervised run loop) is not awaited in "
+                              "place: the run it drives could overlap with another one",
+                              node=call, file=fn.file)  # type: ignore[attr-defined]
     if n_run < 1:
         raise AnalysisError("C10.SINGLE: no call of self._run() found in the Actor family")
-    # Actor subclasses must not override start/_run_loop/_delay_if_restart/wait/cancel silently
+    # Actor subclasses must not override start / the run loop and its pieces silently
     for sub in prog.subclasses(actor):
-        for name in ("start", "_run_loop", "_delay_if_restart"):
+        for name in sorted({"start"} | unit_names):
             if name in sub.methods:
                 m = sub.methods[name]
                 calls_super = has_call(m.node, lambda c, n=name: is_super_call(c, n))
@@ -582,6 +676,10 @@ def _resolve_helper(prog: Program, fl: Flow, callee: ast.AST):  # type: ignore[n
     """FuncInfo of `self._h` / `cls._h` / `Class._h` / module-level `_h` as seen from `fl`."""
     fn = fl.raw
     if isinstance(callee, ast.Name):
+        for n in ast.walk(fn.node):  # a closure of the analysed function itself
+            if isinstance(n, (ast.FunctionDef, ast.AsyncFunctionDef)) and n is not fn.node \
+                    and n.name == callee.id:
+                return prog.nested(fn, callee.id)
         return fn.module.functions.get(callee.id)
     if isinstance(callee, ast.Attribute) and isinstance(callee.value, ast.Name) and fn.cls is not None \
             and callee.value.id in ("self", "cls", fn.cls.name):
@@ -890,7 +988,7 @@ def check_stop(run: Run, prog: Program) -> None:
                                             collectors.add(u(c.func.value))  # type: ignore[attr-defined]
             elif not fors and lst and lst.isidentifier() and raises:
                 # comprehension form: errors = [e for e in (error_of(t) for t in done) if e is not None]
-                d = fl.unique_def(raises[0], lst)
+                d = fl.unique_def(raises[0], lst, any_rhs=True)
                 detail = "the list of task errors is not built from every finished task"
                 if d is not None:
                     helper = _error_comprehension(fl, d[0], d[1], done_name)
@@ -1143,6 +1241,14 @@ def check_run_utils(run: Run, prog: Program) -> None:
             mine = [(i, c) for i, c in probes if u(c.func.value) == tv  # type: ignore[attr-defined]
                     and i in cfg.reachable([m for m, lab in cfg.succ[f.id] if lab == "iter"], avoid=[f.id])]
             unguarded = [c for c in unguarded if not any(c is c2 for _, c2 in mine)]
+            # fail closed: a helper that is handed the task and could not be read in line
+            for i, c in fl.calls(lambda c: any(u(a) == tv for a in c.args)):
+                target = _resolve_helper(prog, fl, c.func)
+                if target is not None and any(
+                        isinstance(x, ast.Attribute) and x.attr in ("exception", "result")
+                        for x in ast.walk(target.node)):
+                    raise AnalysisError(
+                        f"{q}: {u(c.func)}() inspects finished tasks but could not be read in line")
             e_cancelled = fl.consistent(truthy(f"{tv}.cancelled()", True), normal=True)
             for m, lab in cfg.succ[f.id]:
                 if lab == "iter" and wit is None and mine:
